@@ -57,7 +57,7 @@ def ibv_setup(E):
                  mk_bool(z3.ForAll([x], z3.Implies(z3.Select(d.has, x), z3.And(
                      z3.Select(d.val, x) == BM.unk(x), specfn.keccak(BM.unk(x)) == x,
                      BM.wf(BM.nd(x), BM.blank_hash(E2)))))), kind="contract")
-        d.hooks = BM.BinDbInvariant()
+        d.hooks = BM.BinDbInvariant(canonical=False)
     E.ghost["dictcomp_hook"] = hook
     return {"branch": BranchNodes(E), "root_hash": objs.hash32(E, "root_hash"), "key": key, "value": value}
 
